@@ -50,6 +50,7 @@ type transport struct {
 	closed bool // Close was called on the "connection": every later RPC fails as grpc-go's does
 	failUnlock        int  // the next n Unlock RPCs are answered Unavailable (transport failure) ...
 	failUnlockApplied bool // ... after the server has applied them (the response is lost), instead of before
+	failRenew         int  // the next n Renew RPCs are answered Unavailable before they reach the server
 	onEv   func(ev string, name, key string) // optional observer (event log of the M5c validation): renew / answer <0|1> / unlockrpc / connclose
 }
 
@@ -168,6 +169,16 @@ func (t *transport) Renew(ctx context.Context, in *pb.RenewRequest, _ ...grpc.Ca
 		return nil, err
 	}
 	at := int64(time.Since(t.start))
+	t.mu.Lock()
+	failR := t.failRenew > 0
+	if failR {
+		t.failRenew--
+	}
+	t.mu.Unlock()
+	if failR {
+		t.rec(rpcRec{Method: "Renew", Name: in.Name, Key: in.Key, AtNs: at, Err: "(unavailable)", RenewT: in.LockTimeoutSeconds})
+		return nil, status.Error(codes.Unavailable, "transport is closing")
+	}
 	// recorded BEFORE the call: a renew that is in flight when Unlock returns was sent before it
 	i := t.rec(rpcRec{Method: "Renew", Name: in.Name, Key: in.Key, AtNs: at, Err: "(in flight)", RenewT: in.LockTimeoutSeconds})
 	t.ev("renew", in.Name, in.Key)
